@@ -96,3 +96,10 @@ func nontrivialKeyTwice(blocks [][]sdsl.Op) bool {
 	}
 	return false
 }
+
+type ctxT = context.Context
+
+// saveOf adapts the unexported writer type returned by Save.
+func saveOf[W interface{ Write(context.Context) error }](f *store.FileInfo, w W, err error) (*store.FileInfo, interface{ Write(context.Context) error }, error) {
+	return f, w, err
+}
